@@ -427,6 +427,11 @@ func genSegmap(r *vlib.R, emit func(string)) {
 // the same payload but another identity 25%, random 25%.
 func tokenFor(r *vlib.R, k uint64) uint64 {
 	cur, ok := cRef[k]
+	// the nil token (0): what a miss yields. Often on absent / removed keys,
+	// sometimes on present ones (only a STORED nil may match it).
+	if (!ok && r.Chance(1, 2)) || (ok && r.Chance(1, 8)) {
+		return 0
+	}
 	x := r.Intn(4)
 	switch {
 	case ok && x < 2:
@@ -452,15 +457,39 @@ func genCache(r *vlib.R, emit func(string)) {
 	}
 	emit(fmt.Sprintf("cache new %d", size))
 	p := segPool(r, cache.VerifCacheSegMap(cc))
-	tok := func() uint64 { return uint64(r.Range(1, 12)) }
+	tok := func() uint64 {
+		if r.Chance(1, 10) {
+			return 0 // nil value
+		}
+		return uint64(r.Range(1, 12))
+	}
+	var removed []uint64 // keys that were stored once and are gone now
 	key := func() uint64 {
-		if r.Chance(3, 5) && len(cRef) > 0 {
+		x := r.Intn(10)
+		if x < 5 && len(cRef) > 0 {
 			return pickPresent(r, cRef, p)
+		}
+		if x < 7 && len(removed) > 0 {
+			return vlib.Pick(r, removed)
+		}
+		if x == 7 {
+			return 0
 		}
 		return p.pick(r)
 	}
+
 	nops := r.Range(30, 200)
+	ever := map[uint64]bool{}
 	for i := 0; i < nops; i++ {
+		for _, k := range sortedKeysU(cRef) {
+			ever[k] = true
+		}
+		removed = removed[:0]
+		for _, k := range sortedKeysB(ever) {
+			if _, in := cRef[k]; !in {
+				removed = append(removed, k)
+			}
+		}
 		switch x := r.Intn(100); {
 		case x < 35:
 			k := p.pick(r)
@@ -480,6 +509,9 @@ func genCache(r *vlib.R, emit func(string)) {
 		case x < 75:
 			k := key()
 			emit(fmt.Sprintf("cache cas %d %d %d", k, tokenFor(r, k), tok()))
+			if r.Chance(1, 3) {
+				emit(fmt.Sprintf("cache get %d", k))
+			}
 		case x < 87:
 			k := key()
 			emit(fmt.Sprintf("cache cad %d %d", k, tokenFor(r, k)))
@@ -525,6 +557,20 @@ func genLim(r *vlib.R, emit func(string)) {
 }
 
 // ---------------------------------------------------------------- conc
+
+// genLimChurn: a limiter store above the 1000-entry mark, where evictOne
+// samples the first entry of the map iteration instead of the oldest.
+func genLimChurn(r *vlib.R, tier string, emit func(string)) {
+	mx := r.Range(1100, 1500)
+	fresh := 8000
+	if tier == "thorough" {
+		fresh = 30000
+	}
+	emit(fmt.Sprintf("lim new %d", mx))
+	emit(fmt.Sprintf("lim churn %d %d %d", mx, fresh, r.U64()>>1))
+	// boundary: exactly 1000 / 1001 entries (the sampling starts above 1000)
+	emit(fmt.Sprintf("lim churn %d %d %d", vlib.Pick(r, []int{999, 1000, 1001, 1002}), 3000, r.U64()>>1))
+}
 
 func genConc(r *vlib.R, tier string, emit func(string)) {
 	emit("conc new")
@@ -599,7 +645,9 @@ func gen(r *vlib.R, n int, tier string, emit0 func(string)) {
 	for i := 0; i < nconc; i++ {
 		genConc(r, tier, emit)
 	}
+	genLimChurn(r, tier, emit)
 	if tier == "thorough" {
+		genLimChurn(r, tier, emit)
 		exhaustive(emit)
 	}
 	start := count
